@@ -244,6 +244,15 @@ class CellConversion:
             return p_id
         mcnp_cell = self.dic_cell_mcnp[cell]
         p_id = self.pot_convert(mcnp_cell, matching, union_ids)
+        if p_id is None:
+            # the referenced cell is empty: stand in a patently empty volume,
+            # which remove_empty_volumes() deletes together with the
+            # intersections that use it
+            self.new_cell_key += 1
+            p_id = self.new_cell_key
+            self.dic_vol_t4[p_id] = VolumeT4(pluses=[union_ids[0]],
+                                             minuses=[union_ids[0]],
+                                             idorigin=mcnp_cell.idorigin)
         self.convert_cellref_cache[cell] = p_id
         return p_id
 
